@@ -610,7 +610,7 @@ def rule_V2(ctx):
     ctx.rule("V2", "relabelling writes payload id, data, both maps for every discovered vertex; relabel_nodes installs the containers of that one visitor and carries the outliers over", 5)
     dv = prog.fn("PreOrderNodeRelabeller.discover_vertex")
     vcls = dv.cls
-    if not any(b.split(".")[-1] == "DFSVisitor" for b in vcls.bases):
+    if not any(b.split(".")[-1] == "DFSVisitor" for c in prog.mro(vcls) for b in c.bases):
         raise AnalysisError("V2: PreOrderNodeRelabeller is no longer a rustworkx DFSVisitor")
     _same_slots(ctx, "V2", "PreOrderNodeRelabeller.discover_vertex: id, data, both maps per vertex", dv, extract(prog, dv), spec(prog, SPEC_DISCOVER, dv), "what the relabelling visitor writes for a vertex")
     vi = prog.fn("PreOrderNodeRelabeller.__init__")
